@@ -658,16 +658,22 @@ struct Sim {
         case V_CB_WIT: {
             CMutableTransaction m(*c.vtx[0]);
             auto& st = m.vin[0].scriptWitness.stack;
-            int mode = (int)(arg % 4);
+            int mode = (int)(arg % 5);
             if (st.empty()) {
                 st = {std::vector<unsigned char>(32, 0)};
                 mode = 9;
+            } else if (mode == 4) {
+                // one huge element: the variant is also far above the block weight limit (a failed weight check is a CONSENSUS verdict
+                // that sticks to the header, a failed commitment check is a MUTATED verdict that does not)
+                st = {std::vector<unsigned char>(4000000 + r.below(2000), 0x11)};
+                if (r.coin()) st.insert(st.begin(), std::vector<unsigned char>(32, 0));
+                ctx.probe("variant_coinbase_witness_over_weight");
             } else if (mode == 0) st.clear();
             else if (mode == 1) st[0].pop_back();
             else if (mode == 2) st.push_back(std::vector<unsigned char>(32, 0));
             else st[0][r.below(32)] ^= (unsigned char)(1u << r.below(8));
             v.vtx[0] = MakeTransactionRef(m);
-            snprintf(d, sizeof d, "coinbase witness damaged (mode %d: 0 removed, 1 31-byte value, 2 two items, 3 value changed, 9 added to a block without commitment)", mode);
+            snprintf(d, sizeof d, "coinbase witness damaged (mode %d: 0 removed, 1 31-byte value, 2 two items, 3 value changed, 4 multi-megabyte item, 9 added to a block without commitment)", mode);
             break;
         }
         case V_ROOT: {
@@ -682,7 +688,19 @@ struct Sim {
         case V_64: {
             if (c.alt64.empty()) return std::nullopt;
             v.vtx = c.alt64;
-            snprintf(d, sizeof d, "64-byte collapse: %zu txs read as %zu 64-byte transactions", n, c.alt64.size());
+            bool with_wit = false;
+            if (arg & 1) {
+                // the same 64-byte (stripped) transactions, each carrying witness data where it has an input: txids unchanged
+                for (auto& t : v.vtx) {
+                    if (t->vin.empty()) continue;
+                    CMutableTransaction m(*t);
+                    m.vin[0].scriptWitness.stack = {{0x01}};
+                    t = MakeTransactionRef(m);
+                    with_wit = true;
+                }
+                if (with_wit) ctx.probe("variant_64byte_collapse_with_witness");
+            }
+            snprintf(d, sizeof d, "64-byte collapse: %zu txs read as %zu 64-byte transactions%s", n, c.alt64.size(), with_wit ? " carrying witness data" : "");
             break;
         }
         default: return std::nullopt;
